@@ -139,7 +139,7 @@ type c19Case struct {
 	Net     string `json:"net"` // fault for a seeded subset of requests
 	NetSeed uint64 `json:"net_seed"`
 	Seed    uint64 `json:"seed"`
-	Prior   bool   `json:"prior"` // the witness already holds an honest checkpoint of size 5
+	Prior   bool   `json:"prior"`          // the witness already holds an honest checkpoint of size 5
 	Poll    bool   `json:"poll,omitempty"` // polling mode: the feeder runs for 20 poll intervals
 }
 
